@@ -18,7 +18,7 @@ def prepare(sc: Scratch) -> dict:
     for s in specs:
         s.qual = "session_::verif_c12::"
     prep.update({
-        "target_dir": CACHE / "target-session",
+        "target_dir": CACHE / "target-session12",
         "specs": specs,
         # MiniSat decides these pointer-heavy, arithmetic-light instances 4-10x faster than Kani's default CaDiCaL (measured)
         "kani_args": ["--solver", "minisat"],
